@@ -84,6 +84,13 @@ def replay(path):
         for b in bad:
             print("  %s (%s): %s" % (b["clause"], b["variant"], b["what"]))
         return 1 if bad else 0
+    if kind == "radii_state":
+        from . import c18
+        bad = c18.replay_radii([inst["state"]])
+        print("state: %s" % json.dumps(inst["state"]))
+        for b in bad:
+            print("  clause %s: %s" % (b["clause"], b["what"]))
+        return 1 if bad else 0
     if kind == "convexinit_state":
         from . import c19
         st = inst["state"]
